@@ -270,17 +270,33 @@ def poolVals : List Val :=
   -- drop values spelled twice (the pool is about distinct values; equal spellings are covered by the random stream)
   (all.foldl (fun acc v => if acc.any (fun w => w.src == v.src) then acc else acc ++ [v]) [])
 
-def poolCase : Case :=
-  let reps := poolVals.map (·.rep)
+def mkPoolCase (id stratum : String) (vals : List Val) : Case :=
+  let reps := vals.map (·.rep)
   let row (a : Rep) : String := String.ofList (reps.map (fun b =>
     if Impl.less a b then '<' else if Impl.equal a b then '=' else '>'))
   let obs := "\n".intercalate (reps.map row) ++ ";laws=ok"
-  { id := "C06-pool", cls := "good", kind := "pool", stratum := "pool", model := obs, spec := obs,
-    payload := poolVals.map (·.src) }
+  { id := id, cls := "good", kind := "pool", stratum := stratum, model := obs, spec := obs,
+    payload := vals.map (·.src) }
+
+def poolCase : Case := mkPoolCase "C06-pool" "pool" poolVals
+
+/-- a random pool: all pairs and triples of 40 generated values are compared in-process (one parse) -/
+def genPoolCase (idx : Nat) : Gen Case := do
+  let base ← genList 14 (genVal 2)
+  let deep ← genList 6 (genVal 3)
+  let mut rel : List Val := []
+  for _ in [0:20] do
+    rel := (← genRelated 2 (base.take 4)) :: rel
+  pure (mkPoolCase s!"C06-rpool-{idx}" "random-pool" (base ++ deep ++ rel))
 
 def gen (seed n : Nat) (thorough : Bool) : List Case := Id.run do
   let mut out := corpus.reverse
-  if thorough then out := poolCase :: out
+  if thorough then
+    out := poolCase :: out
+    -- 64 random pools of 40 values: 100 k random ordered pairs, 4 M triples, compared without the parser in the loop
+    for j in [0:64] do
+      let (c, _) := (genPoolCase j).run (seedOf seed (650000 + j))
+      out := c :: out
   for i in [0:n] do
     -- two pairs for every triple; a tenth of the budget on the float stream
     let k := i % 10
